@@ -1,8 +1,9 @@
 _Q = 'xdoctest.doctest_example:DocTest.'
 PROPERTY = {
     'id': 'C08',
-    'contract_modules': ['doctest_example'],
-    'functions': [_Q + 'failed_line_offset', _Q + 'failed_lineno'],
+    'contract_modules': ['doctest_example', 'doctest_part', 'parser'],
+    'functions': [_Q + 'failed_line_offset', _Q + 'failed_lineno',
+                  'xdoctest.parser:DoctestParser._package_groups#offsets', 'xdoctest.parser:DoctestParser._package_chunk'],
     'clauses': {
         'P': ['failed_line_offset / failed_lineno: import failure -> the doctest line; got/want mismatch -> first line of the want '
               '(part offset + number of source lines); repr/await failure -> last source line; ordinary exception -> part offset + '
